@@ -536,8 +536,11 @@ class Analyzer(cfg.GraphVisitor):
     self.scope = scope
     self.closure_types = closure_types
 
+    # Names declared nonlocal are listed as bound, but on entry they hold the
+    # value (and type) the enclosing function gave them.
     context_types = {
-        n: t for n, t in closure_types.items() if n not in scope.bound
+        n: t for n, t in closure_types.items()
+        if n not in scope.bound or n in scope.nonlocals
     }
     if context_types:
       self.context_types = _TypeMap()
